@@ -1,5 +1,4 @@
 package main
 
 type iterState struct{}
-type bsiState struct{}
 type mapping struct{}
